@@ -68,6 +68,10 @@ struct Options
   unsigned timeoutOneIn = 8;   // while other threads are enabled, a timed sleeper times out with probability 1/N (0 = only when nothing else can run)
   unsigned spuriousOneIn = 0;  // spurious wake-up probability 1/N per scheduling decision (0 = never)
   long maxSteps = 200000;      // a run longer than this is stopped and reported like a deadlock (`stepLimit()`)
+  bool continueCurrent = false; // how a replay list that ends early is completed: false = lowest enabled thread first (default);
+                               // true = NON-PREEMPTIVELY: keep running the thread that ran last while it is enabled, else the lowest
+                               // enabled one. With this completion, "prefix + one other alternative" enumerates schedules by number of
+                               // preemptions (CHESS-style preemption bounding, see harness/c10_queues.cpp `bq explore … K`).
 };
 
 // kinds of trace events (what the scheduled thread did in this step)
